@@ -1,6 +1,7 @@
 #!/usr/bin/env python3
 """C19 corpus: (a) allocation-free twins for the sequential macros, measured with a counting allocator;
 (b) bounds programs over move-only, !Send and borrowing (also &mut) values."""
+import itertools
 import random
 import zoo
 
@@ -120,6 +121,7 @@ def bounds_programs(first_id):
             mapv = (lambda f: "move |r: Result<_, u8>| r.map(%s)" % f) if tr else (lambda f: f)
             tup = (lambda *xs: "Ok((%s))" % ", ".join(xs)) if tr else (lambda *xs: "(%s)" % ", ".join(xs))
             T.append((kind, "", "%s |> %s ~|> %s, %s |> %s" % (rdy("Tok::new()"), mapv("|t: Tok| t"), mapv("|t: Tok| { drop(t); 1u32 }"), rdy("Tok::new()"), mapv("|t: Tok| { drop(t); 2u32 }")), "__r", tup("1", "2"), "move_only_all_macros"))
+    T += caller_stack_matrix()
     fns, entries = [], []
     for i, (kind, prelude, body, result, expected, tag) in enumerate(T):
         pid = first_id + i
@@ -133,6 +135,74 @@ def bounds_programs(first_id):
         entries.append("Twin { id: %d, kind: %s, m: m_%d, r: r_%d, srcs: &[], branches: &[(1, 2)], tags: %s, text: %s, reference: %s, max_id: 4 }" % (
             pid, rs(kind), pid, pid, rs("bounds,bounds:" + tag), rs(body), rs(expected)))
     return fns, entries, T
+
+
+def caller_stack_matrix():
+    """Systematic "branches may borrow, even mutably, from the caller's stack" programs for the sequential macros.
+    (a) a user closure that touches a caller local, at nesting depth 0-2 of `>>>` wrappers (both wrapper operators at every
+        level), under four operators, with four kinds of local (Copy counter, array, move-only value read, move-only value
+        mutated); the local is observed after the macro;
+    (b) a branch whose first value is a place expression (bare variable, parenthesized, field, index, deref) followed by a
+        borrowing method (`..as_mut()`, `..as_ref()`, `..iter()`), over Copy and move-only contents; the place is observed after."""
+    T = []
+
+    def fmt(v):
+        return "Some(%s)" % fmt(v[1]) if isinstance(v, tuple) else str(v)
+
+    effects = [
+        ("copy_counter", "let mut hits = 0u32;", "hits += 1;", "hits", "1"),
+        ("array_log", "let mut log = [0u32; 2];", "log[1] += 7;", "log", "[0, 7]"),
+        ("move_only_read", "struct Hold(u32); let hold = Hold(3);", "let _k = &hold;", "{ let Hold(k) = hold; k }", "3"),
+        ("move_only_mut", "struct Hold(u32); let mut hold = Hold(3);", "hold.0 += 1;", "{ let Hold(k) = hold; k }", "4"),
+    ]
+    users = [
+        ("map", lambda e: "|> |v| { %s v + 1 }" % e, 6),
+        ("and_then", lambda e: "=> |v| { %s Some(v + 1) }" % e, 6),
+        ("filter", lambda e: "?> |v| { %s *v > 0 }" % e, 5),
+        ("then", lambda e: "-> |o: Option<u32>| { %s o }" % e, 5),
+    ]
+    for kind in ("join", "try_join"):
+        for depth in (0, 1, 2):
+            for wraps in itertools.product(("|>", "=>"), repeat=depth):
+                for uname, ufn, x in users:
+                    for ename, prelude, stmt, after, after_exp in effects:
+                        src = "5u32"
+                        for _ in range(depth + 1):
+                            src = "Some(%s)" % src
+                        body = src + " " + " ".join("%s >>>" % w for w in wraps) + " " + ufn(stmt) + " <<<" * depth
+                        val = ("S", x)
+                        for w in reversed(wraps):
+                            if w == "|>":
+                                val = ("S", val)
+                        if kind == "join":
+                            exp = "(%s, Some(1))" % fmt(val)
+                        else:
+                            exp = "Some((%s, 1))" % fmt(val[1])
+                        T.append((kind, prelude, body + ", Some(1u8)", "(__r, %s)" % after, "(%s, %s)" % (exp, after_exp),
+                                  "stack_closure_d%d_%s_%s" % (depth, uname, ename)))
+        heads = [
+            ("bare", "let mut slot = %s;", "slot", "slot"),
+            ("paren", "let mut slot = %s;", "(slot)", "slot"),
+            ("field", "struct St<T> { slot: T } let mut st = St { slot: %s };", "st.slot", "st.slot"),
+            ("index", "let mut slots = [%s, None];", "slots[0]", "slots[0]"),
+            ("deref", "let mut slot0 = %s; let rs = &mut slot0;", "*rs", "slot0"),
+            ("named_bare", "let mut slot = %s;", "let nm = slot", "slot"),
+        ]
+        contents = [
+            ("copy", "", "Some(1u32)", {"as_mut": "..as_mut() |> |v| { *v += 41; *v }", "as_ref": "..as_ref() |> |v| *v + 1", "iter": "..iter() ..count() -> Some"},
+             lambda place: place),
+            ("move_only", "struct Hold(u32); ", "Some(Hold(1))", {"as_mut": "..as_mut() |> |h| { h.0 += 41; h.0 }", "as_ref": "..as_ref() |> |h| h.0 + 1", "iter": "..iter() ..count() -> Some"},
+             lambda place: "%s.as_ref().map(|h| h.0)" % place),
+        ]
+        for hname, hprel, head, place in heads:
+            for cname, cprel, init, actions, after in contents:
+                for aname, act in actions.items():
+                    bval = {"as_mut": 42, "as_ref": 2, "iter": 1}[aname]
+                    aval = "Some(42)" if aname == "as_mut" else "Some(1)"
+                    exp = "(Some(%d), Some(1))" % bval if kind == "join" else "Some((%d, 1))" % bval
+                    T.append((kind, cprel + hprel % init, "%s %s, Some(1u8)" % (head, act), "(__r, %s)" % after(place), "(%s, %s)" % (exp, aval),
+                              "stack_head_%s_%s_%s" % (hname, cname, aname)))
+    return T
 
 
 def write_crate(outdir, join_repo, vrt_path, tier, seed, nshards=16, tag="x", skip=()):
